@@ -7,5 +7,6 @@ CONSTANTS
   MaxReap = 1
   Faults = TRUE
   SplitGet = FALSE
+  TouchOutside = FALSE
 INVARIANTS TypeOK OneTransportPerName
 PROPERTIES EveryCallReturns
